@@ -272,6 +272,8 @@ type c14Env struct {
 	raw     *http.Client
 	rec     *c14RecTransport
 	cl      *client.Client
+	lastHs  []*client.MessageHeader // what the last successful client.ListMailbox returned
+	lastMsg *client.Message         // what the last successful client.GetMessage returned
 	slog    *c14LockedBuf
 	obsMu   sync.Mutex
 	obs     []c14RouteObs
@@ -1099,10 +1101,23 @@ func c14ClientStatus(err error) string {
 }
 
 // one operation of the real client; compared with the model and checked against its name
-func (e *c14Env) clientOp(op, name, id string) {
+func (e *c14Env) clientOp(op, name, id string) { e.clientOpVia(op, name, id, nil) }
+
+// clientOpVia: the same operation reached through a METHOD OF AN OBJECT the client handed out earlier — via is a *client.MessageHeader
+// (from ListMailbox: GetMessage / GetSource / Delete) or a *client.Message (from GetMessage: GetSource / Delete); nil = the Client's own method.
+// "Every operation offered by the bundled Go client has the effect its name says": these seven are operations too, and what they ask the
+// server for is decided by the (Mailbox, ID) the server put into the object.
+func (e *c14Env) clientOpVia(op, name, id string, via interface{}) {
 	e.rec.take()
 	e.takeObs()
-	e.line("client.%s(%q, %q)", op, name, id)
+	how := ""
+	switch via.(type) {
+	case *client.MessageHeader:
+		how = "header."
+	case *client.Message:
+		how = "message."
+	}
+	e.line("client.%s%s(%q, %q)", how, op, name, id)
 	box, canon := e.boxOf(name)
 	var before []storage.Message
 	if canon {
@@ -1112,21 +1127,44 @@ func (e *c14Env) clientOp(op, name, id string) {
 	var hs []*client.MessageHeader
 	var msg *client.Message
 	var srcBuf *bytes.Buffer
-	switch op {
-	case "list":
-		hs, err = e.cl.ListMailbox(name)
-	case "get":
-		msg, err = e.cl.GetMessage(name, id)
-	case "source":
-		srcBuf, err = e.cl.GetMessageSource(name, id)
-	case "seen":
-		err = e.cl.MarkSeen(name, id)
-	case "delete":
-		err = e.cl.DeleteMessage(name, id)
-	case "purge":
-		err = e.cl.PurgeMailbox(name)
+	switch v := via.(type) {
+	case *client.MessageHeader:
+		switch op {
+		case "get":
+			msg, err = v.GetMessage()
+		case "source":
+			srcBuf, err = v.GetSource()
+		case "delete":
+			err = v.Delete()
+		}
+	case *client.Message:
+		switch op {
+		case "source":
+			srcBuf, err = v.GetSource()
+		case "delete":
+			err = v.Delete()
+		}
+	default:
+		switch op {
+		case "list":
+			hs, err = e.cl.ListMailbox(name)
+		case "get":
+			msg, err = e.cl.GetMessage(name, id)
+		case "source":
+			srcBuf, err = e.cl.GetMessageSource(name, id)
+		case "seen":
+			err = e.cl.MarkSeen(name, id)
+		case "delete":
+			err = e.cl.DeleteMessage(name, id)
+		case "purge":
+			err = e.cl.PurgeMailbox(name)
+		}
 	}
-	e.c.H("op:client:" + op)
+	e.lastHs, e.lastMsg = nil, nil
+	if err == nil {
+		e.lastHs, e.lastMsg = hs, msg
+	}
+	e.c.H("op:client:" + how + op)
 	hops := e.rec.take()
 	obs := e.takeObs()
 	e.checkPanic("client." + op)
@@ -1437,6 +1475,15 @@ func (e *c14Env) history(r *rand.Rand, hidx int) {
 				}
 			}
 			e.clientOp(op, cname, id)
+			// the objects the client hands out offer operations of their own: use them on what was just returned
+			if hs := e.lastHs; op == "list" && len(hs) > 0 && r.Intn(2) == 0 {
+				h := hs[r.Intn(len(hs))]
+				if h != nil && h.JSONMessageHeaderV1 != nil && !strings.ContainsAny(h.ID, "% ") {
+					e.clientOpVia([]string{"get", "source", "source", "delete"}[r.Intn(4)], h.Mailbox, h.ID, h)
+				}
+			} else if m := e.lastMsg; op == "get" && m != nil && m.JSONMessageV1 != nil && r.Intn(2) == 0 && !strings.ContainsAny(m.ID, "% ") {
+				e.clientOpVia([]string{"source", "delete"}[r.Intn(2)], m.Mailbox, m.ID, m)
+			}
 		}
 	}
 	if e.bad {
